@@ -67,6 +67,16 @@ func c19Configs(thorough bool) []mintCfg {
 			}
 		}
 	}
+	// linear periods whose length is not a whole number of seconds (90.5 s, 1.5 s) and a start with a
+	// sub-second part
+	for _, st := range []time.Duration{0, 250 * time.Millisecond} {
+		for _, ln := range []time.Duration{90*time.Second + 500*time.Millisecond, 1500 * time.Millisecond} {
+			for _, a := range []string{"1000003", "90500000"} {
+				out = append(out, mintCfg{Start: st, Periods: []mp{withEnd(mp{Kind: ref.Linear, Amount: a}, st+ln), {Kind: ref.NoMint}}, Denom: c19Denom})
+				out = append(out, mintCfg{Start: st, Periods: []mp{withEnd(mp{Kind: ref.NoMint}, st+3*time.Second), withEnd(mp{Kind: ref.Linear, Amount: a}, st+3*time.Second+ln), {Kind: ref.NoMint}}, Denom: c19Denom})
+			}
+		}
+	}
 	if thorough {
 		red := []mp{ts[0], ts[2], ts[5], ts[12], ts[20]}
 		for _, t1 := range red {
